@@ -208,11 +208,8 @@ def init_only_for_new_pages(ctx):
             if c.name in (L + "init", I + "init"):
                 n += 1
                 host = f.id if f.kind != "closure" else f.id.rsplit("::{closure", 1)[0]
-                if host not in allowed and not host.startswith("database::") and not host.startswith("storage::"):
+                if host not in allowed:
                     bad.append((host, c))
-                elif host not in allowed and (host.startswith("btree::leaf::") or host.startswith("btree::interior::")):
-                    bad.append((host, c))
-    bad = [(h, c) for h, c in bad if h.startswith("btree::")]
     ctx.ob("P7.INIT-WHO", "LeafNodeMut::init / InteriorNodeMut::init", not bad and n >= 4,
            "node init is called only where a page is created (%d site(s))" % n if not bad else
            "%s re-initialises a page that is already part of the tree: init also zeroes the next-leaf / right-child link, so the leaf chain is "
